@@ -12,7 +12,7 @@ VERIF = facts.VERIF
 
 CENSUS_RULES = ("A4.", "R16.1.read_route_marks", "R6.7.route", "R6.8.atomic_forward", "R4.3.who_may_touch", "R5.2.derivation",
                 "R5.4.raw_handle", "R5.1.", "R16.3.", "R17.", "R12.5.signature", "R13.5.", "R3.5.", "R8.4.owner", "R11.6.", "R15.3.",
-                "R18.1.", "R4.2.capped_count", "R9.1.guard", "R20.3.derive", "R19.2.derived", "R1.6.")
+                "R18.1.", "R18.3.zst_guard", "R4.2.capped_count", "R9.1.guard", "R20.3.derive", "R19.2.derived", "R1.6.")
 
 
 class Ctx:
